@@ -274,6 +274,11 @@ func driveHTTP(cfg *hx.RunCfg) error {
 		return err
 	}
 	cases = append(cases, ecases...)
+	acases, err := admitCases(g, st)
+	if err != nil {
+		return err
+	}
+	cases = append(cases, acases...)
 	cf := &hx.CaseFile{
 		Imports: "From FRP Require Import Corr.C02.\nOpen Scope Z_scope.\n",
 		Typ:     "case",
@@ -283,13 +288,14 @@ func driveHTTP(cfg *hx.RunCfg) error {
 			counter("NRESPHDR", "has_resp_headers") + counter("NXFFIN", "has_incoming_xff") + counter("NXFFMULTI", "has_multi_xff") +
 			counter("NHOP", "has_hop") + counter("NUNCLEANQ", "has_unclean_query") + counter("NABSFORM", "has_absform") +
 			counter("NOVERRIDE", "has_declared_overrides_user") + counter("NCOLLISION", "has_collision") +
-			counter("NERR504", "is_err504") + counter("NERR404", "is_err404"),
+			counter("NERR504", "is_err504") + counter("NERR404", "is_err404") +
+			counter("NADMITUP", "(is_admit 1)") + counter("NADMITSTALL", "(is_admit 2)"),
 	}
 	if err := cf.Write(cfg.Out); err != nil {
 		return err
 	}
 	cfg.St["cases"] = len(cases)
-	cfg.St["distinct_nontrivial"] = len(st.distinct) + len(ecases)
+	cfg.St["distinct_nontrivial"] = len(st.distinct) + len(ecases) + len(acases)
 	cfg.St["samples"] = append([]string{}, st.samples...)
 	cfg.St["distribution"] = sortedCounts(st.dist)
 	cfg.St["impl_failures"] = append([]map[string]string{}, st.impl...)
@@ -422,5 +428,93 @@ func errorCases(g *hx.Gen, st *fwdStats) ([]string, error) {
 		st.fail("impl:route-dead-after-timeout", "route does not answer after an earlier timeout", fmt.Sprint(el))
 	}
 	_ = strings.TrimSpace
+	return cases, nil
+}
+
+// ---- (iib) admission: k exchanges of one route held open, then probes on the same and on another route ----
+
+func admitCases(g *hx.Gen, st *fwdStats) ([]string, error) {
+	var cases []string
+	plain := func(g *hx.Gen, i int) *routeSpec {
+		return &routeSpec{domain: fmt.Sprintf("a%d.c02.test", i), location: "/"}
+	}
+	const bound = 700 * time.Millisecond
+	for _, sc := range []struct{ kind, k int }{{1, 5}, {2, 6}, {1, 8}, {2, 5}} {
+		r, err := newRig(g, 2, 10, plain)
+		if err != nil {
+			return nil, err
+		}
+		r.be.script(&scripted{status: 200, framing: "cl", body: []byte("ok"), hdrs: []hdr{{"Content-Type", "text/plain"}}})
+		r.be.drain()
+		var held []*userConn
+		established := 0
+		for i := 0; i < sc.k; i++ {
+			u, err := dialUser(r.addr, fmt.Sprintf("127.0.2.%d", 2+g.Intn(250)))
+			if err != nil {
+				r.close()
+				return nil, err
+			}
+			held = append(held, u)
+			if sc.kind == 1 {
+				fmt.Fprintf(u.c, "GET /ws/%d HTTP/1.1\r\nHost: a0.c02.test\r\nConnection: Upgrade\r\nUpgrade: websocket\r\nSec-WebSocket-Key: dGhlIHNhbXBsZSBub25jZQ==\r\nSec-WebSocket-Version: 13\r\n\r\n", i)
+			} else {
+				fmt.Fprintf(u.c, "GET /__stall/%d HTTP/1.1\r\nHost: a0.c02.test\r\n\r\n", i)
+			}
+		}
+		if sc.kind == 1 {
+			for _, u := range held {
+				_ = u.c.SetReadDeadline(time.Now().Add(1500 * time.Millisecond))
+				if h, err := readHead(u.br); err == nil && strings.HasPrefix(h.start, "HTTP/1.1 101") {
+					established++
+				}
+				_ = u.c.SetReadDeadline(time.Time{})
+			}
+		} else {
+			deadline := time.After(1500 * time.Millisecond)
+		collect:
+			for established < sc.k {
+				select {
+				case s := <-r.be.seen:
+					if strings.HasPrefix(s.target, "/__stall") {
+						established++
+					}
+				case <-deadline:
+					break collect
+				}
+			}
+		}
+		probe := func(host, path string) (int, time.Duration) {
+			u, err := dialUser(r.addr, fmt.Sprintf("127.0.2.%d", 2+g.Intn(250)))
+			if err != nil {
+				return 0, 0
+			}
+			defer u.close()
+			t0 := time.Now()
+			got, err := u.do(simpleGet(host, path), 2*time.Second)
+			if err != nil || got == nil || string(got.body) != "ok" {
+				return 0, time.Since(t0)
+			}
+			return got.status, time.Since(t0)
+		}
+		sameSt, sameEl := probe("a0.c02.test", "/probe-same")
+		otherSt, otherEl := probe("a1.c02.test", "/probe-other")
+		cs := fmt.Sprintf("CAdmit %d %d %d %d %d %d %d %d", sc.kind, sc.k, established, sameSt, sameEl.Milliseconds(), otherSt, otherEl.Milliseconds(), bound.Milliseconds())
+		cases = append(cases, cs)
+		st.dist[fmt.Sprintf("admit:kind%d:k%d", sc.kind, sc.k)]++
+		label := map[int]string{1: "upgraded connections", 2: "exchanges waiting for response headers"}[sc.kind]
+		if established != sc.k || sameSt != 200 || sameEl > bound {
+			st.fail("impl:request-queued-behind-its-route",
+				fmt.Sprintf("%d concurrent %s on one route (%d reached the backend); a further request on the same route: status %d after %d ms (bound %d ms, backend answers at once)",
+					sc.k, label, established, sameSt, sameEl.Milliseconds(), bound.Milliseconds()), cs)
+		}
+		if otherSt != 200 || otherEl > bound {
+			st.fail("impl:other-route-affected-by-open-exchanges",
+				fmt.Sprintf("%d concurrent %s on one route; a request on another route: status %d after %d ms", sc.k, label, otherSt, otherEl.Milliseconds()), cs)
+		}
+		for _, u := range held {
+			u.close()
+		}
+		r.close()
+	}
 	return cases, nil
 }
